@@ -507,11 +507,12 @@ func runBytes(c *mc.Ctx, r *mc.Result) {
 // trailing slash, alone and behind two hostname shapes; each accepted one is instantiated like in the grammar part
 // (one-byte values included, so that every wildcard also gets its shortest possible text).
 func runStructured(c *mc.Ctx, r *mc.Result) {
-	segs := []string{"a", "{}", "*{}", "a*{}", "a{}"}
+	segs := []string{"a", "{}", "*{}", "a*{}", "a{}", "a}"} // the last one: a static segment ending in a literal closing brace
 	depth := 4
 	prefixes := []string{"", "{h}.b", "a.{h}", "{h}.{t}.b", "{h}.{t}", "a{h}.{t}.b.{u}"}
 	r.Bounds["structured"] = fmt.Sprintf("all patterns of <=%d segments over %v (+ trailing slash variants) x hostname prefixes %q, each accepted one instantiated with every value combination from {a,b,ab} (catch-alls also a/b, hostname labels also 1, 10)", depth, segs, prefixes)
 	idx := 0
+	fstruct := router(limits{-1, -1})
 	for _, pre := range prefixes {
 		for _, s := range gen.Patterns(segs, depth, true, pre) {
 			idx++
@@ -521,6 +522,19 @@ func runStructured(c *mc.Ctx, r *mc.Result) {
 			if c.ExpiredEvery(64) {
 				r.NotExhaustive = append(r.NotExhaustive, "structured: time guard")
 				return
+			}
+			// acceptance against the grammar first (these patterns are too long for the string enumeration)
+			gray, acc, cl, m := checkAccept(fstruct, s, limits{-1, -1})
+			r.Evaluations++
+			if cl == "" && !gray {
+				cl, m = checkRegister(s, limits{-1, -1}, acc)
+			}
+			if cl != "" {
+				r.Violate("structured", cl, m, Case{Pattern: []byte(s), Lim: limits{-1, -1}})
+				continue
+			}
+			if !acc {
+				continue
 			}
 			n, cl, m := checkRoutable(s)
 			r.Evaluations += int64(n)
